@@ -56,6 +56,7 @@ inductive ApiStep : Streams → Streams → Prop
   | recvPollResponse (fuel : Nat) (s : Streams) (k : Nat) (tag : String) : ApiStep s (Streams.recvPollResponse fuel s k tag).1
   | recvPollInformational (s : Streams) (k : Nat) (tag : String) : ApiStep s (s.recvPollInformational k tag).1
   | refPollData (s : Streams) (k : Nat) (tag : String) : ApiStep s (s.refPollData k tag).1
+  | refPollPushed (s : Streams) (k : Nat) (tag : String) : ApiStep s (s.refPollPushed k tag).1
   | recvPollTrailers (s : Streams) (k : Nat) (tag : String) : ApiStep s (s.recvPollTrailers k tag).1
   | refReleaseCapacity (s : Streams) (k cap : Nat) : ApiStep s (s.refReleaseCapacity k cap).1
   | refClearRecvBuffer (s : Streams) (k : Nat) : ApiStep s (s.refClearRecvBuffer k)
@@ -104,6 +105,7 @@ theorem ApiStep.evT {s s' : Streams} (h : ApiStep s s') (hA : KeysOK s) (hN : Ne
   | recvPollResponse fuel _ k tag => exact .ev (recvPollResponse_ev _ _ _ _)
   | recvPollInformational _ k tag => exact .ev (recvPollInformational_ev _ _ _)
   | refPollData _ k tag => exact .ev (refPollData_ev _ _ _)
+  | refPollPushed _ k tag => exact .ev (refPollPushed_ev _ _ _)
   | recvPollTrailers _ k tag => exact .ev (recvPollTrailers_ev _ _ _)
   | refReleaseCapacity _ k cap => exact .ev (refReleaseCapacity_ev _ _ _)
   | refClearRecvBuffer _ k => exact .ev (refClearRecvBuffer_ev _ _)
